@@ -115,7 +115,7 @@ func VfC07_GEP() {
 		g.anyVec = true
 	}
 	// index list shape
-	shape := vfChoice("shape", 5)
+	shape := vfChoice("shape", 7)
 	f0 := vfChoice("i0.form", hIdxForms)
 	i0, c0 := g.index("i0", f0)
 	idx := []value.Value{i0}
@@ -137,10 +137,25 @@ func VfC07_GEP() {
 			idx = append(idx, field(1))
 			reached = types.Float
 		}
-	default:
-		// struct field selected by a splat vector index / zeroinitializer
+	case 4:
 		idx = append(idx, field(2), field(1))
 		reached = c
+	case 5:
+		// struct field selected by a vector-typed index: zeroinitializer (field 0)
+		g.anyVec = true
+		idx = append(idx, constant.NewZeroInitializer(g.vecTy(types.I32)))
+		reached = a
+	default:
+		// struct field selected by a splat vector literal (fixed length 2)
+		if g.scalable {
+			vfCut("constant vectors with explicit elements are fixed-length")
+		}
+		vfAssume(g.vl == 2)
+		g.anyVec = true
+		one := constant.NewInt(types.I32, 1)
+		two := constant.NewInt(types.I32, 1)
+		idx = append(idx, constant.NewVector(g.vecTy(types.I32), one, two), field(0))
+		reached = inner
 	}
 	// reference
 	var want types.Type = &types.PointerType{ElemType: reached, AddrSpace: as}
